@@ -1590,6 +1590,17 @@ fn fanout_of(tr: &[Value], full: bool) -> u64 {
 
 pub fn run_behaviour(idx: usize, b: &Value, seed: u64, var: u64) -> Value {
     let hist: Vec<Value> = b["hist"].as_array().cloned().unwrap_or_default();
+    // an issued authentication cookie of a given size: the first connection is run once to measure the cookie, then the whole history is
+    // run with the vouched profile padded (a larger skin property) so that the cookie has exactly that many bytes
+    if let (Some(want), true) = (b["cookieLen"].as_u64(), b.get("padProps").is_none()) {
+        let mut b1 = b.clone();
+        b1["hist"] = json!([hist.first().cloned().unwrap_or(Value::Null)]);
+        b1["padProps"] = json!(0);
+        let l0 = run_behaviour(idx, &b1, seed, var)["hist"][0]["authCookieLen"].as_u64().unwrap_or(0);
+        let mut b2 = b.clone();
+        b2["padProps"] = json!(if l0 > 0 { want.saturating_sub(l0) } else { 0 });
+        return run_behaviour(idx, &b2, seed, var);
+    }
     let mut rng = Rng::new(seed.wrapping_mul(1_000_003).wrapping_add(idx as u64));
     let mut conc = Conc::new(&mut rng);
     // identity variants: the vouched / cookie identity may share the NAME or the UUID with the claimed one (never both)
@@ -1614,6 +1625,13 @@ pub fn run_behaviour(idx: usize, b: &Value, seed: u64, var: u64) -> Value {
     // the authenticated profile may carry no properties at all (an account without a skin)
     if (var / 5) % 4 == 3 {
         conc.vouched_props.clear();
+    }
+    if let Some(pad) = b["padProps"].as_u64() {
+        conc.max_len = 10_000;
+        if conc.vouched_props.is_empty() {
+            conc.vouched_props.push(ProfileProperty { name: "textures".into(), value: "dGV4".into(), signature: None });
+        }
+        conc.vouched_props[0].value.push_str(&"A".repeat(pad as usize));
     }
     let conc = Arc::new(conc);
     let mut jar = Jar { auth: None, sess: None };
@@ -1696,7 +1714,7 @@ pub fn run_behaviour(idx: usize, b: &Value, seed: u64, var: u64) -> Value {
             "secret": round["secret"], "rc": rcv, "obs": obs,
             "result": out.result, "why": out.why, "panic": out.panic, "hang": out.hang, "ranAfterEof": out.ran_after_eof,
             "leftover": out.leftover, "maxAlloc": out.max_alloc.min(2_000_000_000), "peakLive": out.peak_live.min(2_000_000_000),
-            "maxLen": conc.max_len, "var": out.var_note, "rets": out.answered,
+            "maxLen": conc.max_len, "var": out.var_note, "rets": out.answered, "authCookieLen": jar.auth.as_ref().map(|c| c.len()).unwrap_or(0),
         }));
     }
     json!({
